@@ -57,7 +57,9 @@ type View struct {
 	Odd    map[string]*corev1.Pod
 	ByName map[string]*corev1.Pod
 
-	updName *string
+	resolvedDone bool
+	resolved     string
+	candidates   map[string]bool
 }
 
 func parseSlots(set *asv1.StatefulSet) map[int]bool {
@@ -191,32 +193,63 @@ func NewView(rec *sim.Record) *View {
 
 func podRev(p *corev1.Pod) string { return p.Labels["controller-revision-hash"] }
 
-// UpToDate: the pod carries the update revision. "The update revision" is the stored revision
-// the reconcile resolved for the cached template (the name it wrote to the status, else the cached
-// status' name) as long as that revision really records the cached template; several stored revisions
-// may hold identical data (an adopted orphan next to an own one), and then only the resolved one counts.
-// If the status names no revision recording the template (a reconcile that failed before resolving
-// it), any revision recording the template counts.
-func (v *View) UpToDate(p *corev1.Pod) bool {
-	if v.updName == nil {
-		name := v.Set.Status.UpdateRevision
-		for _, a := range v.Rec.Actions {
-			if a.Resource == "statefulsets" && a.Subresource == "status" && a.Verb == "update" {
-				if o, ok := a.Obj.(*asv1.StatefulSet); ok {
-					name = o.Status.UpdateRevision
-				}
+// Which stored revision is "the update revision" of this reconcile? Several stored revisions may hold
+// identical data (an adopted orphan next to an own one); the controller compares revision NAMES, as
+// clause (c) of C03 says. The name it resolved is known when the reconcile wrote a status, or created /
+// renumbered a revision recording the cached template. Otherwise (the reconcile failed earlier, or wrote
+// nothing) it is only known when exactly one stored revision records the template; with several
+// candidates and no witness the question is left open and nothing is asserted either way.
+func (v *View) resolveUpdate() {
+	if v.resolvedDone {
+		return
+	}
+	v.resolvedDone = true
+	v.candidates = map[string]bool{}
+	for name, img := range v.RevImage {
+		if img == v.SetImage {
+			v.candidates[name] = true
+		}
+	}
+	for _, a := range v.Rec.Actions {
+		switch {
+		case a.Resource == "statefulsets" && a.Subresource == "status" && a.Verb == "update":
+			if o, ok := a.Obj.(*asv1.StatefulSet); ok && v.candidates[o.Status.UpdateRevision] {
+				v.resolved = o.Status.UpdateRevision
+			}
+		case a.Resource == "controllerrevisions" && (a.Verb == "create" || a.Verb == "update") && a.Err == nil && v.resolved == "":
+			if o, ok := a.Obj.(*appsv1.ControllerRevision); ok && revImage(o) == v.SetImage && !isSyncLabelsOnly(a) {
+				v.resolved = a.Name
 			}
 		}
-		if img, ok := v.RevImage[name]; !ok || img != v.SetImage {
-			name = ""
+	}
+	if v.resolved == "" && len(v.candidates) == 1 {
+		for n := range v.candidates {
+			v.resolved = n
 		}
-		v.updName = &name
 	}
-	if *v.updName != "" {
-		return podRev(p) == *v.updName
+}
+
+// isSyncLabelsOnly: an update that leaves the revision number alone is the label sync of the adoption
+// path, not a rollback renumbering.
+func isSyncLabelsOnly(a *sim.Action) bool {
+	before, ok1 := a.Before.(*appsv1.ControllerRevision)
+	after, ok2 := a.Obj.(*appsv1.ControllerRevision)
+	return a.Verb == "update" && ok1 && ok2 && before.Revision == after.Revision
+}
+
+// UpToDate: the pod certainly carries the update revision.
+func (v *View) UpToDate(p *corev1.Pod) bool {
+	v.resolveUpdate()
+	return v.resolved != "" && podRev(p) == v.resolved
+}
+
+// Outdated: the pod certainly does not carry the update revision.
+func (v *View) Outdated(p *corev1.Pod) bool {
+	v.resolveUpdate()
+	if !v.candidates[podRev(p)] {
+		return true
 	}
-	img, ok := v.RevImage[podRev(p)]
-	return ok && img == v.SetImage
+	return v.resolved != "" && podRev(p) != v.resolved
 }
 
 func healthy(p *corev1.Pod) bool {
